@@ -165,10 +165,9 @@ Print Assumptions C16_no_valuation_is_error.
    C03_mark_to_market for ComputePrices+Valuate, the builder's days carry the journal's quantities
    and prices; a commodity never booked on the account is never revalued) and
    Proofs/TranscodeMtmSum.v (sum over the held commodities, the step count, decimals).
-   Side conditions: the parser's guarantee on account names (postings_syntactic, as in C03/C02/C04:
-   C03_syntactic_sufficient) and dates_nonneg: no directive is dated before day 0 = 0001-01-01 --
-   mtm_check counts the steps inside the window [0, last_date] (dates of the year 0000 are negative
-   day numbers). *)
+   Side condition: the parser's guarantee on account names (postings_syntactic, as in C03/C02/C04:
+   C03_syntactic_sufficient).  The steps are counted inside the window [first_date, last_date] of
+   the journal (dates of the year 0000 are negative day numbers: see C16_mtm_year0_example). *)
 From Coq Require Import QArith Qabs.
 From Knut Require Import Model.Price Spec.WellformedSpec Spec.LedgerSpec Spec.LedgerSyntax Spec.MarkToMarketSpec Spec.ValuationSpec
      Spec.MarkToMarketReportSpec Spec.BeancountMtmSpec Spec.TranscodeMtmSpec
@@ -177,17 +176,17 @@ Open Scope Z_scope.
 
 (* on the days handed to beancount.Transcode: the exact decimal sum of the values posted to a *)
 Theorem C16_account_totals_mark_to_market : forall l v sds dl days a e,
-  parse_directives sds = MOk dl -> postings_syntactic dl -> dates_nonneg dl ->
+  parse_directives sds = MOk dl -> postings_syntactic dl ->
   transcode_days l v sds = COk days ->
   account_ok a = true -> is_AL a = true ->
   market_value dl v a (last_date dl) = Some e ->
-  within_bound (posted_total a (days_postings days)) e (step_bound dl a 0 (last_date dl)) = true.
+  within_bound (posted_total a (days_postings days)) e (step_bound dl a (first_date dl) (last_date dl)) = true.
 Proof. exact transcode_account_total. Qed.
 Print Assumptions C16_account_totals_mark_to_market.
 
 (* on the emitted ledger, in the reader's vocabulary: the clause of c16_verdict_mtm finds nothing *)
 Theorem C16_ledger_mark_to_market : forall l v sds dl days,
-  parse_directives sds = MOk dl -> postings_syntactic dl -> dates_nonneg dl ->
+  parse_directives sds = MOk dl -> postings_syntactic dl ->
   transcode_days l v sds = COk days ->
   mtm_check dl v (erase_entries v (transcode_entries days [])) = [].
 Proof. exact transcode_mtm_check. Qed.
@@ -200,8 +199,7 @@ Theorem C16_ledger_total_is_days_total : forall v a days,
 Proof. intros v a days. rewrite ledger_total_days, posted_total_value. reflexivity. Qed.
 Print Assumptions C16_ledger_total_is_days_total.
 
-(* behind them, per commodity, for any date T on or after the last directive (no calendar side
-   condition): a commodity other than V is carried at quantity * latest price up to 10^-8 per
+(* behind them, per commodity, for any date T on or after the last directive: a commodity other than V is carried at quantity * latest price up to 10^-8 per
    booking of (a, c) and per day of the journal; V itself exactly at its quantity; a commodity the
    account never books gets no posting at all (so no adjustment can come from nowhere) *)
 Theorem C16_position_mark_to_market : forall l v sds dl days a c T,
@@ -244,9 +242,9 @@ Example C16_mtm_example :
   match parse_directives c16_witness, transcode_days true chf c16_witness with
   | MOk dl, COk days =>
     let a := acc_of_name [65;115;115;101;116;115;58;80] in
-    postings_syntactic_b dl = true /\ dates_nonneg_b dl = true /\ account_ok a = true /\ is_AL a = true /\
+    postings_syntactic_b dl = true /\ account_ok a = true /\ is_AL a = true /\
     market_value dl chf a (last_date dl) = Some (mkDec 110 0) /\
-    step_bound dl a 0 (last_date dl) = 5 /\
+    step_bound dl a (first_date dl) (last_date dl) = 5 /\
     posted_total a (days_postings days) = mkDec 110 0 /\
     ledger_total (erase_entries chf (transcode_entries days [])) (acc_name a) = mkDec 110 0
   | _, _ => False
@@ -292,15 +290,14 @@ Example C16_adjusted_account_example :
   end.
 Proof. vm_compute. reflexivity. Qed.
 
-(* The calendar side condition of C16_account_totals_mark_to_market / C16_ledger_mark_to_market is
-   needed: mtm_check counts the truncation steps inside [day 0, last day], and dates of the year
-   0000 (which time.Parse and the model accept) are negative day numbers.  Witness: 0.3 AAPL bought
-   on 0000-06-01 and again on 0000-06-02 at 0.33333333: the ledger carries 2 * 0.09999999 =
-   0.19999998 on Assets:P, the market value is 0.6 * 0.33333333 = 0.199999998, the difference
-   1.8e-8 is two legitimate truncations, but the allowance evaluates to 1e-8: the clause reports
-   account-total-not-mark-to-market on a correct ledger.  (The generator of the check never leaves
-   the years 2000-2100; replacing the window start 0 of mtm_check by the journal's first date would
-   remove the corner.) *)
+(* The window of the step count starts at the journal's first date, not at day 0 = 0001-01-01: dates
+   of the year 0000 (which time.Parse and the model accept) are negative day numbers.  With the
+   window [0, last day] that mtm_check used first, the clause reported
+   account-total-not-mark-to-market on the correct ledger of this journal: 0.3 AAPL bought on
+   0000-06-01 and again on 0000-06-02 at 0.33333333; the ledger carries 2 * 0.09999999 = 0.19999998
+   on Assets:P, the market value is 0.6 * 0.33333333 = 0.199999998, the difference 1.8e-8 is two
+   legitimate truncations, and the allowance evaluated to 1e-8 (no booking and no day inside the
+   window).  Now the allowance is 2 bookings + 2 days * 1 commodity + 1 = 5. *)
 Definition c16_year0_witness : list sdirective :=
   let acc s := acc_of_name s in
   let P := [65;115;115;101;116;115;58;80] (* Assets:P *) in
@@ -312,18 +309,16 @@ Definition c16_year0_witness : list sdirective :=
     STxn (mkStxn d0 [66;117;121] [mkBooking (acc E) (acc P) (mkDec 3 (-1)) aapl] None None);
     STxn (mkStxn (d0 + 1) [66;117;121] [mkBooking (acc E) (acc P) (mkDec 3 (-1)) aapl] None None) ].
 
-Theorem C16_mark_to_market_without_calendar_condition_refuted :
-  exists sds v dl days a e,
-    parse_directives sds = MOk dl /\ postings_syntactic_b dl = true /\
-    transcode_days true v sds = COk days /\
-    account_ok a = true /\ is_AL a = true /\
-    market_value dl v a (last_date dl) = Some e /\
-    within_bound (posted_total a (days_postings days)) e (step_bound dl a 0 (last_date dl)) = false /\
-    mtm_check dl v (erase_entries v (transcode_entries days [])) <> [].
-Proof.
-  exists c16_year0_witness, chf. do 2 eexists. exists (acc_of_name [65;115;115;101;116;115;58;80]). eexists.
-  split; [vm_compute; reflexivity|]. split; [vm_compute; reflexivity|]. split; [vm_compute; reflexivity|].
-  split; [vm_compute; reflexivity|]. split; [vm_compute; reflexivity|]. split; [vm_compute; reflexivity|].
-  split; [vm_compute; reflexivity|]. vm_compute. discriminate.
-Qed.
-Print Assumptions C16_mark_to_market_without_calendar_condition_refuted.
+Example C16_mtm_year0_example :
+  match parse_directives c16_year0_witness, transcode_days true chf c16_year0_witness with
+  | MOk dl, COk days =>
+    let a := acc_of_name [65;115;115;101;116;115;58;80] in
+    postings_syntactic_b dl = true /\ first_date dl < 0 /\ last_date dl = 0 /\
+    market_value dl chf a (last_date dl) = Some (mkDec 199999998 (-9)) /\
+    posted_total a (days_postings days) = mkDec 19999998 (-8) /\
+    step_bound dl a 0 (last_date dl) = 1 /\
+    step_bound dl a (first_date dl) (last_date dl) = 5 /\
+    mtm_check dl chf (erase_entries chf (transcode_entries days [])) = []
+  | _, _ => False
+  end.
+Proof. vm_compute. repeat split; reflexivity. Qed.
